@@ -291,6 +291,15 @@ def chunk_detect(chunk, acc):
     stubs = [bytes(w) for w in sequences(STUB_ALPHA, b["stub_len"])]
     long_stubs = [b"\x90" * k for k in (1017, 1018, 1019, 1020, 1021)]  # +3 marker bytes => nonce offset 1020..1024
     mine = [s for i, s in enumerate(stubs + long_stubs) if i % b["buckets"] == chunk["bucket"]]
+    if chunk["bucket"] == 0:
+        # stubs that end in a longer run of ff bytes (the marker occurs at overlapping positions): with a consistent
+        # size field the true offset is supported by two indications and must win
+        for head in (b"", b"\xe8", b"\xfc\xe8\x90"):
+            for extra in (1, 2, 3, 4):
+                stub = head + b"\xff" * extra
+                acc.states += 1
+                for nonce in (NONCES[0], NONCES[2]):
+                    detect_case(acc, image, stub, True, True, b"", nonce, meta)
     for stub in mine:
         acc.states += 1
         in_range_marker = len(stub) + 3 <= 1023
